@@ -44,6 +44,12 @@ def main():
         os.makedirs(os.path.join(wt, "SEED_OUT"), exist_ok=True)
         shutil.copytree(seed, os.path.join(wt, "SEED_OUT", sid))
         demo = meta["demo_cmd"]
+        if "SEED_OUT" not in demo:
+            # the demo command assumes the demo file(s) are already in place (RUN.md says where): tests/
+            import glob as _g
+            rs = _g.glob(os.path.join(seed, "seed_*.rs"))
+            if rs:
+                demo = "mkdir -p tests && cp SEED_OUT/%s/seed_*.rs tests/ && %s" % (sid, demo)
         rc0, out0 = sh(demo, cwd=wt)
         rec["demo_pristine"] = {"cmd": demo, "rc": rc0, "tail": out0[-600:]}
         rc, out = sh("git apply SEED_OUT/%s/patch.diff" % sid, cwd=wt)
